@@ -23,7 +23,7 @@ structure Pub where
   size : Nat := 0
   framed : List WFrame := []
   wire : List WFrame := []
-  deriving Repr
+  deriving Repr, DecidableEq
 
 variable {α : Type}
 
@@ -135,6 +135,17 @@ def Pub.sendEach (c : Codec α) (z : Compressor) (lim : Nat) (p : Pub) : List (B
       | .ok p2 => ((p2.flush.sendEach c z lim rest).1, true :: (p2.flush.sendEach c z lim rest).2)
       | _ => ((p1.sendEach c z lim rest).1, false :: (p1.sendEach c z lim rest).2)
     | _ => ((p.dropBatch.sendEach c z lim rest).1, false :: (p.dropBatch.sendEach c z lim rest).2)
+
+/-- a publisher as `Publisher::spawn` makes it from the batching configuration (`MessageBatch::from(config)`): nothing
+    collected, nothing framed -/
+def Pub.ofConfig (batchSize : Option Nat) : Pub := { batch := batchSize.map (fun _ => []), size := batchSize.getD 0 }
+
+/-- the batching configuration a publisher was opened with -/
+def Pub.config (p : Pub) : Option Nat := p.batch.map (fun _ => p.size)
+
+/-- `Publisher::duplicate`: a second publisher on a stream of its own, spawned from the same *configuration* (headers,
+    encoder, compression, `batch_config`) — not from the state: whatever the original has collected stays with it -/
+def Pub.duplicate (p : Pub) : Pub := Pub.ofConfig p.config
 
 /-- `finish()`: `flush_batch` (a non-empty batch is framed), flush the framed writer, finish the stream -/
 def Pub.finish (z : Compressor) (lim : Nat) (p : Pub) : Res Pub :=
